@@ -1,10 +1,12 @@
 // harness/c07 - C07 "No input from a server can crash or wedge the caller".
 //
 // parent (run):  generates the case list, starts child processes (this binary, `child`), each of
-//                which pushes its share of the cases through the REAL client; a child that dies
-//                (panic in a background goroutine, fatal error) is attributed to the case in flight
-//                and restarted behind it.  The parent evaluates the oracle on the observations and
-//                emits the Coq cases.
+//
+//	which pushes its share of the cases through the REAL client; a child that dies
+//	(panic in a background goroutine, fatal error) is attributed to the case in flight
+//	and restarted behind it.  The parent evaluates the oracle on the observations and
+//	emits the Coq cases.
+//
 // child:         hostile peers + client in one process; one JSON line per case on stdout.
 package main
 
@@ -49,7 +51,12 @@ func childMain(args []string) {
 	}
 	tmp, _ := os.MkdirTemp("", "c07-")
 	defer os.RemoveAll(tmp)
-	w := &world{reported: map[string]bool{}, peer: peer, tmp: tmp, metrics: []metrics.Sample{{Name: "/memory/classes/heap/objects:bytes"}}}
+	h2p, err := newH2Peer()
+	if err != nil {
+		fmt.Fprintln(os.Stderr, "h2 peer:", err)
+		os.Exit(3)
+	}
+	w := &world{reported: map[string]bool{}, peer: peer, h2: h2p, tmp: tmp, metrics: []metrics.Sample{{Name: "/memory/classes/heap/objects:bytes"}}}
 	out := bufio.NewWriter(os.Stdout)
 	enc := json.NewEncoder(out)
 	for _, cs := range cases {
@@ -63,7 +70,7 @@ func childMain(args []string) {
 		out.Flush()
 		var res *Result
 		switch cs.Kind {
-		case "h1":
+		case "h1", "h2":
 			res = w.runCase(cs)
 		default:
 			res = runParserCase(cs)
@@ -229,7 +236,7 @@ func run(r *hk.Run) {
 		if res.HeapHigh > maxHeap {
 			maxHeap = res.HeapHigh
 		}
-		if cs.Kind != "h1" {
+		if cs.Kind != "h1" && cs.Kind != "h2" {
 			judgeParser(r, cs, res)
 			continue
 		}
@@ -300,10 +307,11 @@ func judgeH1(r *hk.Run, cs *Case, res *Result) {
 		if o.DecodeAll {
 			custom = "(Some true)"
 		}
-		coq := fmt.Sprintf("StageCase H1 {| q_disable := %s; q_ae := %s; q_range := %s; q_head := %s |} %s false %s "+
+		stack := map[string]string{"h1": "H1", "h2": "H2"}[cs.Kind]
+		coq := fmt.Sprintf("StageCase %s {| q_disable := %s; q_ae := %s; q_range := %s; q_head := %s |} %s %s %s "+
 			"{| p_callback := %s; p_decode := {| d_disable := %s; d_custom := %s; d_resp_ae := %s |}; p_dumpers := %s |} %s %s "+
 			"{| o_parse_err := %s; o_charset := %s; o_known := %s |} %s %s",
-			hk.CoqBool(o.DisableCompression), hk.CoqStr(o.ReqAE), hk.CoqStr(o.ReqRange), hk.CoqBool(cs.Method == "HEAD"), hk.CoqZ(wire), hk.CoqBool(o.AutoDecompress),
+			stack, hk.CoqBool(o.DisableCompression), hk.CoqStr(o.ReqAE), hk.CoqStr(o.ReqRange), hk.CoqBool(cs.Method == "HEAD"), hk.CoqZ(wire), hk.CoqBool(cs.Ended), hk.CoqBool(o.AutoDecompress),
 			hk.CoqBool(o.Callback && o.Download != ""), hk.CoqBool(o.DisableAutoDecode), custom, hk.CoqStr(strings.TrimSpace(cs.S.RespAE)), hk.CoqNat(dumpers),
 			hk.CoqStr(strings.TrimSpace(cs.S.CE)), hk.CoqStr(strings.TrimSpace(cs.S.CT)),
 			hk.CoqBool(perr), hk.CoqOpt(has, hk.CoqStr(chs)), hk.CoqBool(known),
@@ -314,7 +322,7 @@ func judgeH1(r *hk.Run, cs *Case, res *Result) {
 		emitted = true
 	}
 	// h1 model case
-	if cs.Model && len(cs.Rounds) == 1 && cs.Rounds[0].End == "fin" && len(cs.Rounds[0].Data) <= 48<<10 && !cs.Opts.Digest && !redirecting(cs, res) {
+	if cs.Kind == "h1" && cs.Model && len(cs.Rounds) == 1 && cs.Rounds[0].End == "fin" && len(cs.Rounds[0].Data) <= 48<<10 && !cs.Opts.Digest && !redirecting(cs, res) {
 		o := cs.Opts
 		lim := int64(10 << 20)
 		if o.MaxHeader > 0 {
@@ -372,6 +380,5 @@ func hashRounds(cs *Case) []byte {
 	}
 	return b.Bytes()
 }
-
 
 var syncers = map[string]hk.Gosyncer{}
